@@ -72,8 +72,107 @@ def api(call, fn, *a, **kw):
         raise ApiCrash(call, e)
 
 
+# ---------------------------------------------------------------------------------------------------
+# run environment (set by the runner from scenario['_env']; replayed with the scenario)
+#   decor: seed -> the specification texts are decorated in ways that must not change their meaning: line comments after
+#          sub-specifications, block comments between tokens, constants and variables (also) declared inside the text
+#   knobs: seed -> every upper-case integer tuning constant (>= 16) found in the rtamt modules (cache sizes, scan limits,
+#          pending-queue caps ...) is set to a small value for the run, so that slow paths and evictions run on small inputs
+
+ENV = {}
+_KNOB_SITES = None
+
+
+def _knob_sites():
+    global _KNOB_SITES
+    if _KNOB_SITES is None:
+        import pkgutil
+        import importlib
+        import inspect
+        sites = []
+        for m in pkgutil.walk_packages(rtamt.__path__, 'rtamt.'):
+            if any(x in m.name for x in ('.antlr', '.enumerations', '.lib', 'cpp', '.parser.')):
+                continue
+            try:
+                mod = importlib.import_module(m.name)
+            except Exception:  # noqa
+                continue
+            holders = [mod] + [c for _, c in inspect.getmembers(mod, inspect.isclass) if getattr(c, '__module__', None) == mod.__name__]
+            for h in holders:
+                for k, v in list(vars(h).items()):
+                    if k.isupper() and len(k) >= 3 and type(v) is int and v >= 16:
+                        sites.append((h, k, v))
+        _KNOB_SITES = sites
+    return _KNOB_SITES
+
+
+def set_env(env):
+    """returns an undo function"""
+    global ENV
+    ENV = dict(env or {})
+    undo = []
+    if ENV.get('knobs') is not None:
+        import random
+        krng = random.Random(ENV['knobs'])
+        for h, k, v in _knob_sites():
+            setattr(h, k, krng.choice([1, 2, 3, 4]))
+            undo.append((h, k, v))
+
+    def restore():
+        global ENV
+        for h, k, v in undo:
+            setattr(h, k, v)
+        ENV = {}
+    return restore
+
+
+def knob_count():
+    return len(_knob_sites())
+
+
+def _decorate(desc):
+    """returns (desc', moved_consts, in_text_vars): the same specification, written differently"""
+    import random
+    drng = random.Random(ENV['decor'])
+    d = dict(desc)
+    subs = list(d.get('subspecs') or [])
+    text = d['spec']
+    kinds = [k for k in ('line_comments', 'block_comments', 'decl_in_text') if drng.random() < 0.5] or ['line_comments']
+    if 'line_comments' in kinds:
+        subs = [(t + '  // requirement %d' % i) if t.rstrip().endswith(';') else t for i, t in enumerate(subs)]
+        lines = text.split('\n')
+        lines = [(t + '  // see 4.%d' % i) if (t.rstrip().endswith(';') and (i + 1 < len(lines) or drng.random() < 0.5)) else t
+                 for i, t in enumerate(lines)]
+        text = '\n'.join(lines)
+    if 'block_comments' in kinds:
+        pos = [i for i, c in enumerate(text) if c == ' ' and '//' not in text[:i].split('\n')[-1]]
+        if pos:
+            for i in sorted(set(pos[drng.randrange(len(pos))] for _ in range(2)), reverse=True):
+                text = text[:i] + ' /* note */ ' + text[i + 1:]
+    head = []
+    moved = set()
+    if 'decl_in_text' in kinds and not subs and '\n' not in d['spec']:
+        # declarations inside the text (before the assertions): constants move there, variables are declared there as well
+        for c, ty, val in d.get('consts') or []:
+            if ty == 'float' and drng.random() < 0.7:
+                sval = val if isinstance(val, str) else repr(float(val))
+                if sval.replace('.', '').isdigit():
+                    head.append('const float %s = %s' % (c, sval))
+                    moved.add(c)
+        io = d.get('io') or {}
+        for v, ty in d.get('vars') or []:
+            if ty == 'float' and drng.random() < 0.5:
+                head.append('%sfloat %s' % ((io[v] + ' ') if io.get(v) else '', v))
+    d['subspecs'] = subs
+    d['spec'] = '\n'.join(head + [text])
+    d['consts'] = [c for c in (d.get('consts') or []) if c[0] not in moved]
+    return d
+
+
 def new_spec(desc):
     """construct + declare (no parse)"""
+    if ENV.get('decor') is not None:
+        desc = _decorate(desc)
     sem = SEMANTICS[desc.get('semantics', 'standard')]
     spec = api('construct', CLASSES[desc['cls']], sem)
     spec.name = desc.get('name', 'sim')
